@@ -49,11 +49,12 @@ section
 variable {L : LinkCfg} {Pa Pb : List Bytes} {A : Bytes} {p a b : Nat} {s0 s : NetState} {q : NetQueue}
 
 /-- **One `send` of the fragment loop** (see the head of the file). -/
-theorem rfSend_frag (hc : L3Contracts) (E : FragEnv Pb A p a b s0) {ce : Bool} (prev : Option (Bytes × Frame))
-    (h : FragSt L Pa Pb A p a b s0 s (false, ce, 0x3F) (prev.map (·.1)) (prev.map (·.1)) q) (buf : Bytes) (f : Nat)
+theorem rfSend_frag (hc : L3Contracts) (E : FragEnv L Pb A p a b s0) {ce : Bool} (prev : Option (Bytes × Frame))
+    {last : Option Bytes}
+    (h : FragSt L Pa Pb A p a b s0 s (false, ce, 0x3F) (prev.map (·.1)) last q) (buf : Bytes) (f : Nat)
     (hprev : ∀ x, prev = some x → FragOk (s0.nodeAt b).a.addr x.1 x.2 ∧
       (x.2.header.ty = MSG_FRAG_FIRST ∨ x.2.header.ty = MSG_FRAG_MORE))
-    (hl1 : 1 ≤ buf.length) (hl32 : buf.length ≤ 32) (hdup : prev.map (·.1) ≠ some buf)
+    (hl1 : 1 ≤ buf.length) (hl32 : buf.length ≤ 32) (hdup : last ≠ some buf)
     (hfuel : s0.nodes.length + b + 8 ≤ f) :
     ∃ s', nexec (rfSend (f + 1) buf) s = (.ok true, s') ∧
       FragSt L Pa Pb A p a b s0 s' (false, true, 0x3F) (some buf) (some buf) (feed q (prev.toList.map (·.2))) := by
@@ -78,11 +79,15 @@ theorem rfSend_frag (hc : L3Contracts) (E : FragEnv Pb A p a b s0) {ce : Bool} (
     exact ⟨s', rfl, hs'⟩
 
 /-- **The fragment loop in the closed system** (see the head of the file): `prev` = the fragment sent just
-    before the plan `tr` starts (none at the start of a message). -/
-theorem sendFrags_closed (hc : L3Contracts) (E : FragEnv Pb A p a b s0) :
+    before the plan `tr` starts (none at the start of a message); `last` = the bytes of the packet the
+    receiver's radio accepted last — `prev`'s payload inside a message, and at the start of a message
+    anything but the payload of the first fragment (the radio's duplicate filter must stay silent). -/
+theorem sendFrags_closed (hc : L3Contracts) (E : FragEnv L Pb A p a b s0) :
     ∀ (tr : List (Header × Bytes × Frame)) (f : Nat) (s : NetState) (ce : Bool) (prev : Option (Bytes × Frame))
-      (q : NetQueue), tr ≠ [] →
-    FragSt L Pa Pb A p a b s0 s (false, ce, 0x3F) (prev.map (·.1)) (prev.map (·.1)) q →
+      (last : Option Bytes) (q : NetQueue), tr ≠ [] →
+    FragSt L Pa Pb A p a b s0 s (false, ce, 0x3F) (prev.map (·.1)) last q →
+    (∀ x, prev = some x → last = some x.1) →
+    (prev = none → ∀ t, tr.head? = some t → last ≠ some t.2.1) →
     (∀ x, prev = some x → FragOk (s0.nodeAt b).a.addr x.1 x.2 ∧
       (x.2.header.ty = MSG_FRAG_FIRST ∨ x.2.header.ty = MSG_FRAG_MORE)) →
     PlanOk (s0.nodeAt b).a.addr (prev.map (·.2)) tr → s0.nodes.length + b + 10 + tr.length ≤ f →
@@ -92,9 +97,9 @@ theorem sendFrags_closed (hc : L3Contracts) (E : FragEnv Pb A p a b s0) :
         (feed q (prev.toList.map (·.2) ++ (tr.map (·.2.2)).dropLast)) := by
   intro tr
   induction tr with
-  | nil => intro _ _ _ _ _ h; exact absurd rfl h
+  | nil => intro _ _ _ _ _ _ h; exact absurd rfl h
   | cons t rest ih =>
-    intro f s ce prev q _ h hprev hplan hfuel
+    intro f s ce prev last q _ h hlast hfirst hprev hplan hfuel
     obtain ⟨hd, pl, g⟩ := t
     obtain ⟨hne, hok, hfm, hrest⟩ := hplan
     obtain ⟨k1, k32, kun, kto, kvt, kvf⟩ := hok
@@ -103,13 +108,14 @@ theorem sendFrags_closed (hc : L3Contracts) (E : FragEnv Pb A p a b s0) :
     -- the header of this fragment is shown in `frame_buf`
     have h1 := h.setNode E (fun n => { n with frameBuf := { n.frameBuf with header := hd } }) (fun _ => ⟨rfl, rfl⟩)
     -- the send
-    have hdup : prev.map (·.1) ≠ some pl := by
-      intro e
+    have hdup : last ≠ some pl := by
       cases prev with
-      | none => cases e
+      | none => exact hfirst rfl (hd, pl, g) rfl
       | some x =>
+        intro e
         obtain ⟨⟨_, _, jun, _⟩, _⟩ := hprev x rfl
-        simp only [Option.map_some, Option.some.injEq] at e
+        rw [hlast x rfl] at e
+        simp only [Option.some.injEq] at e
         have := (jun default).symm.trans (e ▸ kun default)
         simp only [Prod.mk.injEq, and_true] at this
         apply hne
@@ -129,7 +135,8 @@ theorem sendFrags_closed (hc : L3Contracts) (E : FragEnv Pb A p a b s0) :
     | cons y ys =>
       have hne' : ¬ ((List.map (fun t : Header × Bytes × Frame => (t.1, t.2.1)) (y :: ys)).isEmpty = true) := by simp
       rw [if_neg hne']
-      obtain ⟨s', x, hx, ex, hs'⟩ := ih (f2 + 1) s2 true (some (pl, g)) _ (by simp) h2
+      obtain ⟨s', x, hx, ex, hs'⟩ := ih (f2 + 1) s2 true (some (pl, g)) (some pl) _ (by simp) h2
+        (by intro x hx; cases hx; rfl) (fun e => nomatch e)
         (by
           intro x hx
           simp only [Option.some.injEq] at hx
